@@ -512,7 +512,7 @@ func propC11(c *Ctx) {
 // (1) every advertised algorithm: name -> object -> transform -> wire -> transform -> object
 func (c *Ctx) c11Advertised(g *Gen, corr *[]corrCase) {
 	s := c.suite("advertised-roundtrip", "oracle",
-		"for each of the 19 advertised (kind, name) pairs: StrToType/StrToKType(name) has the RFC identifier and key/output lengths (table written in the oracle from RFC 3602/2403/2404/4868/7296/3526); ToTransform gives exactly (type, id, key-length TV attribute 14 for AES, no attribute otherwise); the transform placed in a proposal (random number, protocol, SPI) of an SA payload, marshalled and unmarshalled, decodes to the pointer-identical object with the same lengths; names outside the advertised set give nil; non-trivial = every case; distinct by (kind, name, proposal surroundings)")
+		"for each of the 19 advertised (kind, name) pairs: StrToType/StrToKType(name) has the RFC identifier and key/output lengths (table written in the oracle from RFC 3602/2403/2404/4868/7296/3526); ToTransform gives exactly (type, id, key-length TV attribute 14 for AES, no attribute otherwise); the transform placed in a proposal (random number, protocol, SPI) of an SA payload, marshalled and unmarshalled, decodes to the pointer-identical object with the same lengths; after the caller has overwritten every field of the returned transform (or of the transforms of a returned proposal) a further conversion still yields the algorithm's transform; names outside the advertised set give nil; non-trivial = every case; distinct by (kind, name, proposal surroundings)")
 	idx := 0
 	for _, a := range c11Table {
 		a := a
@@ -592,6 +592,20 @@ func (c *Ctx) c11Advertised(g *Gen, corr *[]corrCase) {
 			if bad {
 				break
 			}
+		}
+		// the returned transform is the caller's: rewriting it must not reach later conversions (of this or, for
+		// AES, of the neighbouring key sizes)
+		*tr = message.Transform{TransformType: 7, TransformID: 4242, AttributePresent: true, AttributeFormat: 1, AttributeType: 14, AttributeValue: 128, VariableLengthAttributeValue: []byte{9}}
+		r2 := guard(func() (string, error) {
+			t2, err := c11ToTransform(a.kind, byName.obj)
+			if err != nil {
+				return "", err
+			}
+			return renderTransform(t2).String(), nil
+		})
+		s.add(line+" after-caller-edit", true, "kind:"+a.kind, "step:totransform-again")
+		if r2.String() != "ok "+wantT.String() {
+			fail("totransform-shared-result", "ToTransform after the caller rewrote the transform returned by the previous call does not yield the transform of the algorithm", "ok "+wantT.String(), r2.String())
 		}
 	}
 	// closure of the name space
@@ -971,6 +985,22 @@ func (c *Ctx) c11SA(g *Gen, corr *[]corrCase) {
 						continue
 					}
 					c.c11ProposalBack(s, back, tpLine, idx, map[string]interface{}{"encr": sa.EncrInfo, "integ": sa.IntegInfo, "prf": sa.PrfInfo, "dh": sa.DhInfo})
+					// the returned proposal is the caller's: rewriting its transforms must not reach later conversions
+					for _, tc := range []message.TransformContainer{back.EncryptionAlgorithm, back.PseudorandomFunction, back.IntegrityAlgorithm, back.DiffieHellmanGroup, back.ExtendedSequenceNumbers} {
+						for _, t := range tc {
+							*t = message.Transform{TransformType: 7, TransformID: 4242, AttributePresent: true, AttributeFormat: 1, AttributeType: 14, AttributeValue: 128}
+						}
+					}
+					tr2 := guard(func() (string, error) {
+						b2, err := sa.ToProposal()
+						if err != nil {
+							return "", err
+						}
+						return renderProposal(b2).String(), nil
+					})
+					if tr2.String() != "ok "+wantP.String() {
+						fail("toproposal-shared-result", "IKESAKey.ToProposal() after the caller rewrote the transforms of the proposal returned by the previous call", tpLine, "ok "+wantP.String(), tr2.String())
+					}
 				}
 			}
 		}
@@ -1993,6 +2023,7 @@ func propC19(c *Ctx) {
 	var corr []corrCase
 	c.c19Header(g, &corr)
 	c.c19Builders(g, &corr)
+	c.c19Histories(g)
 	c.c19Layouts(g, &corr)
 	c.c19Oversize(g, &corr)
 	sc := c.suite("build-model-vs-impl", "correspondence",
